@@ -34,7 +34,7 @@ pub fn spec(id: &str) -> Option<Spec> {
                 assumptions: vec![
                     "ErrorKind::Interrupted is excluded by the property statement; it is injected as a record-only probe".into(),
                     "documents of the streams used for the iterator oracle are valid and non-null, so item j corresponds to document j".into(),
-                    "for inputs with a UTF-8 BOM, caps within 3 bytes below the raw length are not asserted (raw vs decoded length is not fixed by the statement)".into(),
+                    "the input cap counts raw bytes, byte-order mark included; an input that consists of the mark alone is not asserted".into(),
                     "fixed buffering allowance for the pull bound: 20 KiB".into(),
                 ],
                 components: components(),
